@@ -87,7 +87,7 @@ theorem covN_assign (op : String) (l r : Node) :
 
 theorem covN_unop (op : String) (e : Node) :
     covN (.unop op e) =
-      if Gen.uOps.contains op && (e.rmCast.isId || e.rmCast.isConst || e.rmCast.isUnop) then
+      if Gen.uOps.contains op && (e.rmCast.isId || e.rmCast.isConst || nestedOk op e.rmCast) then
         covN e >>= fun c => .ok ⟨c.up, c.inner, .unop op c.mod⟩
       else .ok ⟨1, 0, .unop op e⟩ := by
   simp only [covN]; rfl
